@@ -7,6 +7,7 @@ package main
 
 import (
 	"fmt"
+	"time"
 
 	"github.com/elliotchance/gedcom/v39"
 )
@@ -41,6 +42,29 @@ func c07chain(r *Rand, g *c07gen, depth, width int) *TNode {
 	return root
 }
 
+// c07bounded runs one corpus case under a watchdog.  On the unchanged code every case of the
+// boundary corpora takes milliseconds; a change that makes equality, copying or merging exponential
+// in the depth or width of the tree would otherwise hang the whole check instead of being reported.
+// Returns false when the case did not finish: the caller stops its stream (the abandoned goroutine
+// keeps running until the process exits).
+func c07bounded(c *Ctx, what string, t *TNode, f func()) bool {
+	done := make(chan struct{})
+	go func() {
+		defer close(done)
+		defer func() { recover() }()
+		f()
+	}()
+	limit := 30 * time.Second
+	select {
+	case <-done:
+		return true
+	case <-time.After(limit):
+		c.Oracle("", what+" does not finish within "+limit.String()+" (milliseconds on the unchanged code)",
+			map[string]string{"case": what, "tree": encTree(t), "depth": fmt.Sprint(t.Depth()), "size": fmt.Sprint(t.Size())}, "still running", "a result")
+		return false
+	}
+}
+
 func c07deep(c *Ctx) {
 	r := c.R
 	g := &c07gen{r: r, small: true}
@@ -63,23 +87,28 @@ func c07deep(c *Ctx) {
 			}
 			c.Count(fmt.Sprintf("deep:depth=%d", t.Depth()))
 			c.Nontrivial(fmt.Sprintf("deep/%d/%d", depth, k%3))
-			src, err := newPlain(t)
-			if err != nil {
-				continue
-			}
-			c07copyCase(c, src, t, fmt.Sprintf("deep-%d", depth))
-			c07laws(c, t, t.Clone(), "copy", "eq")
-			c07laws(c, t, c07shuffle(r, t, 3), "permutation", "eq")
-			for _, e := range c07edits(r, t, 2) {
-				c07laws(c, t, e.t, "edit", "ne")
-			}
-			c07mutCase(c, func() gedcom.Node {
-				n, err := newPlain(t)
+			tt, dd := t, depth
+			if !c07bounded(c, fmt.Sprintf("DeepEqual / DeepCopy on a tree with %d levels", depth), t, func() {
+				src, err := newPlain(tt)
 				if err != nil {
-					return nil
+					return
 				}
-				return n
-			}, t)
+				c07copyCase(c, src, tt, fmt.Sprintf("deep-%d", dd))
+				c07laws(c, tt, tt.Clone(), "copy", "eq")
+				c07laws(c, tt, c07shuffle(r, tt, 3), "permutation", "eq")
+				for _, e := range c07edits(r, tt, 2) {
+					c07laws(c, tt, e.t, "edit", "ne")
+				}
+				c07mutCase(c, func() gedcom.Node {
+					n, err := newPlain(tt)
+					if err != nil {
+						return nil
+					}
+					return n
+				}, tt)
+			}) {
+				return
+			}
 		}
 	}
 }
